@@ -226,6 +226,7 @@ def run(ctx):
         from ..rules import dlrules
         nv = dlrules.verdict_gates(ck, prog, config, 'C02-f', VERDICT_TABLE)
         ck.min_instances('positive-verdict exits of the verdict functions', nv, 4)
+        dlrules.digest_intact(ck, prog, config, 'C02-f', [t[0] for t in VERDICT_TABLE])
         # ---- d
         pairing(ck, prog, 'comp_read', ('read_data', 1, None),
                 [('hash_update', 2, 3, 'check_chunk_hash'), ('hash_update', 2, 3, 'check_full_hash'),
